@@ -369,8 +369,9 @@ class C08(CheckBase):
                             sub.t_req, sub.t_resp, sub.granted = t_req, t_resp, rem
                             sub.grants.append((s.steps, t_req, t_resp, rem))
                     elif dead is None and sub.unsub_resp is None and not sub.failures:
-                        lo = sub.granted - (t_resp - sub.t_req) - 0.02
-                        hi = sub.granted - (t_req - sub.t_resp) + 0.02
+                        # (a remaining time is never negative: right at the expiry instant the answer is 0)
+                        lo = max(0.0, sub.granted - (t_resp - sub.t_req) - 0.02)
+                        hi = max(0.0, sub.granted - (t_req - sub.t_resp)) + 0.02
                         if rem is None or not (lo <= rem <= hi):
                             ctx.violation('C08.expiry', 'getstatus-inconsistent',
                                           f'GetStatus reports {rem}s remaining, expected between {lo:.2f} and {hi:.2f} '
